@@ -109,3 +109,55 @@ contract(E, 'EventEmitter.connect', props=['C19'],
              ('appended-at-the-end', 'len(self._callbacks) == len(old(self._callbacks)) + 1 and self._callbacks[len(self._callbacks) - 1] == (ite(event is None, on_name(func), event), sender, func, kwargs)'),
              ('earlier-registrations-untouched', 'all(self._callbacks[k] == old(self._callbacks)[k] for k in range(len(old(self._callbacks))))'),
              ('silencing-unchanged', 'self.is_silent == old(self.is_silent)')])
+
+# =========================================================================================================================
+# EventEmitter.emit / unconnect.  Ghost trace of the callback calls made by one emit:
+#   calls[a] = the callable, reg[a] = its registration index in self._callbacks, rets[a] = what it returned.
+# Assumption A-CB: a callback does not re-enter the emitter (connect/unconnect/reset/emit during dispatch are outside this contract).
+# =========================================================================================================================
+_CBS = 'self._callbacks'
+_MATCH = lambda r: '(%s[%s][0] == event and (%s[%s][1] is None or %s[%s][1] == sender))' % (_CBS, r, _CBS, r, _CBS, r)
+_LAST = lambda r: '%s[%s][3].last' % (_CBS, r)
+_BEFORE = lambda x, y: '((not %s and %s) or (%s == %s and %s < %s))' % (_LAST(x), _LAST(y), _LAST(x), _LAST(y), x, y)   # dispatch order on registration indices
+_MONITOR = {'requires': [('passes-sender-and-arguments-through-unchanged', 'len(call_args) == 1 and call_args[0] == sender and len(call_star) == 1 and call_star[0] == args')],
+            'updates': {'calls': 'calls + [callee]', 'reg': 'reg + [origin(callbacks, t)]', 'cp': 'cp + [t]', 'rets': 'rets + [call_ret]'}}
+_TRACE_OK = [('trace-lengths', 'len(calls) == len(reg) and len(rets) == len(reg)'),
+             ('only-registered-callbacks-matching-event-and-sender', 'all(0 <= reg[a] and reg[a] < len(%s) and %s and calls[a] == %s[reg[a]][2] for a in range(len(reg)))' % (_CBS, _MATCH('reg[a]'), _CBS))]
+_LOOP = {0: {'idx': 't', 'seq': 'L', 'invariant': [
+    ('trace-so-far', '0 <= t and t <= len(L) and len(calls) == len(reg) and len(rets) == len(reg) and len(cp) == len(reg) and len(res) == len(reg)'),
+    ('calls-are-listed-positions-in-order', 'all(0 <= cp[a] and cp[a] < t and reg[a] == origin(callbacks, cp[a]) and calls[a] == L[cp[a]][2] and res[a] == rets[a] and L[cp[a]][0] == event and (L[cp[a]][1] is None or L[cp[a]][1] == sender) for a in range(len(cp))) and all(cp[a] < cp[b] for a in range(len(cp)) for b in range(a + 1, len(cp)))'),
+    ('every-matching-position-so-far-was-called', 'all(implies(L[p][0] == event and (L[p][1] is None or L[p][1] == sender), any(cp[a] == p for a in range(len(cp)))) for p in range(t))')]}}
+_CUTS = [('callbacks +=', 'listed-are-registered', 'all(0 <= origin(callbacks, p) and origin(callbacks, p) < len(%s) and callbacks[p] == %s[origin(callbacks, p)] for p in range(len(callbacks)))' % (_CBS, _CBS)),
+         ('callbacks +=', 'every-registered-callback-is-listed', 'all(any(origin(callbacks, p) == r for p in range(len(callbacks))) for r in range(len(%s)))' % _CBS),
+         ('callbacks +=', 'list-order-is-dispatch-order', 'all(%s for p in range(len(callbacks)) for q in range(p + 1, len(callbacks)))' % _BEFORE('origin(callbacks, p)', 'origin(callbacks, q)'))]
+
+contract(E, 'EventEmitter.emit', variant='all', props=['C19'], params={'event': 'elem', 'sender': 'elem', 'args': 'elem', 'kwargs': 'rec[x:int]'}, fields=EM_FIELDS,
+    ghost={'calls': "empty('elem')", 'reg': "empty('int')", 'cp': "empty('int')", 'rets': "empty('elem')"}, on_call=_MONITOR, loops=_LOOP, cuts=_CUTS, locals={'res': 'list[elem]'},
+    ensures=_TRACE_OK + [
+        ('calls-nothing-while-silenced', 'implies(self.is_silent, len(reg) == 0 and result is None)'),
+        ('every-matching-registered-callback-is-called', 'implies(not self.is_silent, all(implies(%s, any(reg[a] == r for a in range(len(reg)))) for r in range(len(%s))))' % (_MATCH('r'), _CBS)),
+        ('in-registration-order-with-last-after-all-others', 'all(%s for a in range(len(reg)) for b in range(a + 1, len(reg)))' % _BEFORE('reg[a]', 'reg[b]')),
+        ('returns-the-results-in-call-order', 'implies(not self.is_silent, len(result) == len(rets) and all(result[a] == rets[a] for a in range(len(rets))))'),
+        ('registrations-and-silencing-unchanged', 'self._callbacks == old(list(self._callbacks)) and self.is_silent == old(self.is_silent)')])
+
+_LOOP_SINGLE = {0: {'idx': 't', 'seq': 'L', 'invariant': _LOOP[0]['invariant'] + [('nothing-called-yet', 'len(reg) == 0')]}}
+contract(E, 'EventEmitter.emit', variant='single', props=['C19'], params={'event': 'elem', 'sender': 'elem', 'args': 'elem', 'kwargs': 'rec[single:bool]'}, fields=EM_FIELDS,
+    requires=[('a-single-result-is-requested', 'kwargs.single')],
+    ghost={'calls': "empty('elem')", 'reg': "empty('int')", 'cp': "empty('int')", 'rets': "empty('elem')"}, on_call=_MONITOR, loops=_LOOP_SINGLE, cuts=_CUTS, locals={'res': 'list[elem]'},
+    ensures=_TRACE_OK + [
+        ('calls-nothing-while-silenced', 'implies(self.is_silent, len(reg) == 0 and result is None)'),
+        ('at-most-one-call', 'len(reg) <= 1'),
+        # "only the first result, after a single call, when a single result is requested"
+        ('the-first-matching-callback-in-dispatch-order-is-the-one-called', 'implies(not self.is_silent and not is_list(result), len(reg) == 1 and result == rets[0] and all(implies(%s, r == reg[0] or %s) for r in range(len(%s))))' % (_MATCH('r'), _BEFORE('reg[0]', 'r'), _CBS)),
+        ('no-result-only-when-nothing-matches', 'implies(not self.is_silent and is_list(result), len(result) == 0 and len(reg) == 0 and all(not %s for r in range(len(%s))))' % (_MATCH('r'), _CBS)),
+        ('registrations-and-silencing-unchanged', 'self._callbacks == old(list(self._callbacks)) and self.is_silent == old(self.is_silent)')])
+
+# unconnect(*items): the view loses exactly the registrations whose callback, sender filter or bound object is one of the items; order kept
+_OLD = 'old(self._callbacks)'
+_KEEP = lambda r: ('(not any(items[q] == %s[%s][2] for q in range(len(items))) and not any(items[q] == %s[%s][1] for q in range(len(items))) and '
+                   "not any(items[q] == getattr(%s[%s][2], '__self__', None) for q in range(len(items))))" % (_OLD, r, _OLD, r, _OLD, r))
+contract(E, 'EventEmitter.unconnect', props=['C19'], params={'items': 'list[elem]'}, fields=EM_FIELDS, modifies=['self._callbacks'],
+    ensures=[('kept-registrations-are-old-ones-not-named-by-an-item', 'all(0 <= origin(self._callbacks, j) and origin(self._callbacks, j) < len(%s) and self._callbacks[j] == %s[origin(self._callbacks, j)] and %s for j in range(len(self._callbacks)))' % (_OLD, _OLD, _KEEP('origin(self._callbacks, j)'))),
+             ('registration-order-kept', 'all(origin(self._callbacks, i) < origin(self._callbacks, j) for i in range(len(self._callbacks)) for j in range(i + 1, len(self._callbacks)))'),
+             ('nothing-else-is-removed', 'all(implies(%s, any(origin(self._callbacks, j) == r for j in range(len(self._callbacks)))) for r in range(len(%s)))' % (_KEEP('r'), _OLD)),
+             ('silencing-unchanged', 'self.is_silent == old(self.is_silent)')])
